@@ -55,6 +55,13 @@ fn plans_c01(tier: Tier) -> Vec<Plan> {
         c3.filters = s(&["a/b", "a/+"]);
         v.push(Plan { cfg: c3, depth_by_devs: if quick { vec![5] } else { vec![7, 5] } });
     }
+    // variant 4: bursts of 12 and 130 against an outgoing batch of 4 and the window of 100,
+    // up to three overlapping subscriptions per subscriber
+    let mut c4 = c.clone();
+    c4.variant = 4;
+    c4.max_out = 4;
+    c4.topics = s(&["a/b"]);
+    v.push(Plan { cfg: c4, depth_by_devs: if quick { vec![4] } else { vec![5, 4] } });
     if !quick {
         // configurations: hash order, tiny outgoing batch, v5 subscribers
         let mut d = c.clone();
@@ -127,6 +134,13 @@ fn plans_c08(tier: Tier) -> Vec<Plan> {
     let mut c2 = c.clone();
     c2.variant = 2;
     v.push(Plan { cfg: c2, depth_by_devs: if q { vec![5] } else { vec![8, 6] } });
+    // overlapping filters (one message in flight through two subscriptions), more than a
+    // window full of backlog, QoS 0/2 publishers, takeover by a clean-session connect
+    let mut c5 = c.clone();
+    c5.variant = 3;
+    c5.topics = s(&["a/b"]);
+    c5.filters = s(&["a/b", "a/+"]);
+    v.push(Plan { cfg: c5, depth_by_devs: if q { vec![4] } else { vec![6, 5] } });
     if !q {
         let mut c3 = c.clone();
         c3.seg_size = 1024;
@@ -369,7 +383,7 @@ pub fn explore_plans(prop: &'static str, tier: Tier, reporter: &Reporter, ev: &m
             *d += delta;
         }
         // histories without scheduling deviations are cheap: one step deeper in the quick tier
-        if tier == Tier::Quick && matches!(prop, "C01" | "C08" | "C14" | "C15" | "C16" | "C19") {
+        if tier == Tier::Quick && matches!(prop, "C08" | "C14" | "C15" | "C16" | "C19") {
             p.depth_by_devs[0] += 1;
         }
     }
